@@ -130,7 +130,21 @@ func R34() Rule {
 			return
 		}
 		n := 0
-		for _, f := range core.Family(fn) {
+		// finishUpload together with the helpers / lock-section methods it is split into
+		scope := P.Scope(fn, func(f *ssa.Function) bool {
+			return f.Pkg == nil || f.Pkg.Pkg.Path() != core.PkgGcsemu || f.Name() == "validateConds" || f.Name() == "fmtErrorfCode"
+		})
+		within := setOf(scope)
+		var failures []ssa.Instruction
+		for _, f := range scope {
+			for _, call := range callsTo(f, core.PkgGcsemu, "fmtErrorfCode") {
+				failures = append(failures, call)
+			}
+			for _, call := range callsTo(f, core.PkgGcsemu, "validateConds") {
+				failures = append(failures, call)
+			}
+		}
+		for _, f := range scope {
 			for _, b := range f.Blocks {
 				for _, in := range b.Instrs {
 					st, ok := in.(*ssa.Store)
@@ -141,22 +155,27 @@ func R34() Rule {
 					if !ok || !core.TypeIs(fa.X.Type(), pkgStorageV1, "Object") {
 						continue
 					}
-					if core.Resolve(fa.X) != ssa.Value(obj) {
+					if !P.AllOrigins(fa.X, within, func(v ssa.Value) bool { return v == ssa.Value(obj) }) {
 						continue
 					}
 					n++
 					_, field, _ := core.FieldName(fa)
 					construct := fmt.Sprintf("finishUpload/%s/store-obj.%s#%d", core.FuncName(f), field, n)
-					// no validation failure (explicit 4xx / precondition) may follow in the same function
+					// no validation failure (explicit 4xx / precondition) may follow
+					// … if that failure is decided by the very field assigned here: the rejected
+					// attempt then leaves a state in which a retry of the same request is judged
+					// differently (e.g. the declared MD5 replaced by the computed one)
 					var bad ssa.Instruction
-					for _, call := range callsTo(f, core.PkgGcsemu, "fmtErrorfCode") {
-						if core.InstrReaches(st, call) {
-							bad = call
+					for _, fl := range failures {
+						if !failureReadsField(P, fl, obj, field, within) {
+							continue
 						}
-					}
-					for _, call := range callsTo(f, core.PkgGcsemu, "validateConds") {
-						if core.InstrReaches(st, call) {
-							bad = call
+						if fl.Parent() == st.Parent() {
+							if core.InstrReaches(st, fl) {
+								bad = fl
+							}
+						} else if P.MayFollow(fn, st, fl, within) {
+							bad = fl
 						}
 					}
 					if bad != nil {
@@ -171,6 +190,68 @@ func R34() Rule {
 			c.Unknown("R34", "finishUpload/floor", fn.Pos(), "only %d assignments to the upload's object found", n)
 		}
 	}}
+}
+
+// failureReadsField: the validation failure at fl (an explicit error under
+// branch conditions, or a validateConds call) is decided by a value derived from
+// field `field` of obj.
+func failureReadsField(P *core.Program, fl ssa.Instruction, obj *ssa.Parameter, field string, within map[*ssa.Function]bool) bool {
+	seen := map[ssa.Value]bool{}
+	var dep func(v ssa.Value, depth int) bool
+	dep = func(v ssa.Value, depth int) bool {
+		if v == nil || depth > 12 {
+			return false
+		}
+		v = core.Resolve(v)
+		if seen[v] {
+			return false
+		}
+		seen[v] = true
+		switch x := v.(type) {
+		case *ssa.Parameter:
+			for _, o := range P.Origins(x, within) {
+				if o != ssa.Value(x) && dep(o, depth+1) {
+					return true
+				}
+			}
+			return false
+		case *ssa.UnOp:
+			if fa, ok := x.X.(*ssa.FieldAddr); ok {
+				if _, f, _ := core.FieldName(fa); f == field && P.AllOrigins(fa.X, within, func(o ssa.Value) bool { return o == ssa.Value(obj) }) {
+					return true
+				}
+			}
+			if cell := core.CellOf(x.X); cell != nil {
+				for _, st := range core.StoresTo(cell) {
+					if dep(st.Val, depth+1) {
+						return true
+					}
+				}
+			}
+		}
+		if in, ok := v.(ssa.Instruction); ok {
+			for _, op := range in.Operands(nil) {
+				if *op != nil && dep(*op, depth+1) {
+					return true
+				}
+			}
+		}
+		return false
+	}
+	if call, ok := fl.(*ssa.Call); ok && core.Call(call).IsFunc(core.PkgGcsemu, "validateConds") {
+		for _, a := range call.Call.Args {
+			if dep(a, 0) {
+				return true
+			}
+		}
+		return false
+	}
+	for _, f := range core.FactsAt(fl.Block()) {
+		if dep(f.Cond, 0) {
+			return true
+		}
+	}
+	return false
 }
 
 func R35() Rule {
@@ -565,32 +646,83 @@ func R41() Rule {
 			}
 			kb, kn := substKey(sec.bucket, nil, 0), substKey(sec.name, nil, 0)
 			k := 0
-			for _, ci := range core.AllCalls(fn) {
-				var bi, ni int
-				switch {
-				case isStoreCall(ci, "GetMeta", "Get"):
-					bi, ni = 1, 2
-				case isStoreCall(ci, "Add", "UpdateMeta", "Delete"):
-					bi, ni = 0, 1
-				default:
-					continue
-				}
-				n++
-				k++
-				c.Fn(core.FuncName(fn))
-				construct := fmt.Sprintf("%s/Store.%s#%d/same-object-as-lock", core.FuncName(fn), ci.Method.Name(), k)
-				ab, an := substKey(ci.Common.Args[bi], nil, 0), substKey(ci.Common.Args[ni], nil, 0)
-				if ab == kb && an == kn {
-					c.Ok("R41", construct, ci.Instr.Pos(), true, "operates on the object the critical section is keyed on")
-				} else {
-					c.Bad("R41", construct, ci.Instr.Pos(), "inside the critical section of (%s, %s) the store is asked about (%s, %s): the answer describes an object this request does not hold", kb, kn, ab, an)
+			// the closure itself and the in-package helpers / "…Locked" methods it calls,
+			// with their parameters bound to the arguments at each call
+			var walk func(f *ssa.Function, binds []binding, depth int)
+			walk = func(f *ssa.Function, binds []binding, depth int) {
+				for _, ci := range core.AllCalls(f) {
+					var bi, ni int
+					switch {
+					case isStoreCall(ci, "GetMeta", "Get"):
+						bi, ni = 1, 2
+					case isStoreCall(ci, "Add", "UpdateMeta", "Delete"):
+						bi, ni = 0, 1
+					default:
+						if call, isCall := ci.Instr.(*ssa.Call); isCall && depth < 3 && ci.Static != nil && ci.Static.Blocks != nil && ci.Static.Pkg != nil && ci.Static.Pkg.Pkg.Path() == core.PkgGcsemu && ci.Static.Parent() == nil {
+							walk(ci.Static, append(append([]binding(nil), binds...), binding{ci.Static, call}), depth+1)
+						}
+						continue
+					}
+					if isStoreCall(ci, "Get") && elementOfList(ci.Common.Args[ni]) {
+						// a read of one member of a list of objects (compose sources): by design not the
+						// locked object; the per-source check is R12's compose-validates-each-source
+						continue
+					}
+					n++
+					k++
+					c.Fn(core.FuncName(f))
+					construct := fmt.Sprintf("%s/Store.%s#%d/same-object-as-lock", core.FuncName(fn), ci.Method.Name(), k)
+					ab, an := substKey(ci.Common.Args[bi], binds, 0), substKey(ci.Common.Args[ni], binds, 0)
+					if ab == kb && an == kn {
+						c.Ok("R41", construct, ci.Instr.Pos(), true, "operates on the object the critical section is keyed on")
+					} else {
+						c.Bad("R41", construct, ci.Instr.Pos(), "inside the critical section of (%s, %s) the store is asked about (%s, %s): the answer describes an object this request does not hold", kb, kn, ab, an)
+					}
 				}
 			}
+			walk(fn, nil, 0)
 		}
 		if n < 6 {
 			c.Unknown("R41", "floor/calls", token.NoPos, "only %d store calls found inside critical sections", n)
 		}
 	}}
+}
+
+// elementOfList: v is (a field of) an element of a slice being indexed or ranged over.
+func elementOfList(v ssa.Value) bool {
+	for i := 0; i < 10; i++ {
+		v = core.Resolve(v)
+		switch x := v.(type) {
+		case *ssa.UnOp:
+			v = x.X
+		case *ssa.FieldAddr:
+			v = x.X
+		case *ssa.Field:
+			v = x.X
+		case *ssa.IndexAddr, *ssa.Index:
+			return true
+		case *ssa.Alloc:
+			// the loop variable: a local copy of the current element
+			sts := core.StoresTo(x)
+			if len(sts) == 0 {
+				return false
+			}
+			for _, st := range sts {
+				if !elementOfList(st.Val) {
+					return false
+				}
+			}
+			return true
+		case *ssa.Extract:
+			if _, ok := x.Tuple.(*ssa.Next); ok {
+				return true
+			}
+			return false
+		default:
+			return false
+		}
+	}
+	return false
 }
 
 // ---------------------------------------------------------------------------
